@@ -173,14 +173,25 @@ def crate_callee(c, call):
 
 
 def passed_closures(c, f, call):
+    """[(argument index, closure of f)] for the closures of f given as arguments of `call`."""
     kids = {k.path: k for k in c.closures_of(f)}
     out = []
-    for a in call.args:
+    for i, a in enumerate(call.args):
         o = f.origin(a)
         if o.get("kind") == "agg" and "closure" in o.get("rv", {}):
             k = kids.get(o["rv"]["closure"])
-            if k is not None and k not in out:
-                out.append(k)
+            if k is not None:
+                out.append((i, k))
+    return out
+
+
+def closure_param_calls(g, i):
+    """blocks of g that invoke (FnOnce/FnMut/Fn) its i-th parameter."""
+    out = []
+    for x in g.calls(_CLOSURE_CALL):
+        o = g.origin(x.args[0]) if x.args else {}
+        if o.get("kind") == "arg" and o.get("n") == i + 1:
+            out.append(x.bb)
     return out
 
 
@@ -199,11 +210,11 @@ def inline_sites(c, f, finder, known=(), depth=2, _chain=(), _stack=()):
         ks = passed_closures(c, f, call)
         if g is not None and g.path not in stack:
             out += inline_sites(c, g, finder, known, depth - 1, here, stack)
-            for k in ks:
-                for y in g.call_blocks(_CLOSURE_CALL):
+            for i, k in ks:
+                for y in closure_param_calls(g, i):
                     out += inline_sites(c, k, finder, known, depth - 1, here + ((g, y),), stack + (g.path,))
         else:
-            for k in ks:
+            for _, k in ks:
                 for s in inline_sites(c, k, finder, known, depth - 1, here, stack):
                     out.append(Site(s.chain, True))
     return out
